@@ -520,7 +520,8 @@ func applyStoreOp(ctx context.Context, b *stBackend, op storeOp, viol func(p, ru
 	case "add_node":
 		o := &coretypes.AddNodeOptions{Nodename: op.Node, Endpoint: "sim://" + op.Node, Podname: op.Pod, Labels: op.Labels}
 		if op.Cert {
-			o.Ca, o.Cert, o.Key = "ca", "cert", "key"
+			// (every request brings its own certificates: a refused add must not leave them behind)
+			o.Ca, o.Cert, o.Key = "ca-of-"+op.Pod, "cert-of-"+op.Pod, "key-of-"+op.Pod
 		}
 		_, err = st.AddNode(ctx, o)
 		if err == nil {
@@ -850,7 +851,12 @@ func readBack(ctx context.Context, b *stBackend, prop string, viol func(p, rule,
 		ns, err := st.GetNodesByPod(ctx, &coretypes.NodeFilter{Podname: p, All: true})
 		var xs []string
 		for _, n := range ns {
-			xs = append(xs, fmt.Sprintf("%s{%v,bypass=%v,up=%v,cert=%v}", n.Name, fmtLabels(n.Labels), n.Bypass, n.Available, n.Ca != ""))
+			certs := "?"
+			nc := &coretypes.Node{NodeMeta: coretypes.NodeMeta{Name: n.Name}}
+			if cerr := st.LoadNodeCert(ctx, nc); cerr == nil {
+				certs = nc.Ca + "/" + nc.Cert + "/" + nc.Key
+			}
+			xs = append(xs, fmt.Sprintf("%s{%v,bypass=%v,up=%v,certs=%s}", n.Name, fmtLabels(n.Labels), n.Bypass, n.Available, certs))
 		}
 		sort.Strings(xs)
 		fmt.Fprintf(&sb, "nodes(%s)[%s]%s ", p, strings.Join(xs, ","), errClass(err))
